@@ -140,6 +140,10 @@ class Case:
             for p in mine:
                 by_kind.setdefault(powerloss.kind_of(p["rel"]), []).append(p)
             metas, ptrs = by_kind.get("metadata", []), by_kind.get("pointer", [])
+            if not metas and not ptrs and set(by_kind) <= {"marker", "data"} and not res.get("ok") and res.get("rolled_back") \
+                    and not res.get("aborted"):
+                self._failed_append(i, res, lo, hi, by_kind)
+                continue
             if not metas and not ptrs and set(by_kind) <= {"marker", "data"} and res.get("aborted"):
                 # a rolled-back transaction: marker + data file pairs, all unlinked again
                 markers = {os.path.basename(p["rel"])[: -len(".inflight")]: p for p in by_kind.get("marker", [])}
@@ -184,6 +188,48 @@ class Case:
                 continue
             self.ops.append(commit)
 
+    def _failed_append(self, i: int, res: Dict[str, Any], lo: int, hi: int, by_kind: Dict[str, List[Dict[str, Any]]]) -> None:
+        """A transaction whose append_data raised and that was rolled back: model op OFail its mk fl k.
+        its = the (marker, data file) pairs completed before; the failing publish is the temp that was
+        created but never renamed (k = how many of Create / Write / Fsync it got), or nothing at all (k = 0)."""
+        calls = self.calls[lo:hi]
+        renamed = {c[1] for c in calls if c[0] == "Rename"}
+        orphans = [c[1] for c in calls if c[0] == "Create" and c[1] not in renamed]
+        markers = {os.path.basename(p["rel"])[: -len(".inflight")]: p for p in by_kind.get("marker", [])}
+        data_order = [d.lstrip("/") for d in res.get("data_files", [])]
+        datas = sorted(by_kind.get("data", []), key=lambda p: data_order.index(p["rel"]) if p["rel"] in data_order else 10**6)
+        its = []
+        for f in datas:
+            m = markers.pop(os.path.basename(f["rel"]), None)
+            if m is None:
+                self.problems.append(f"step {i}: {f['rel']} published without a marker")
+                return
+            its.append({"marker": self.pub(m), "file": self.pub(f)})
+        if len(orphans) > 1 or len(markers) > 1:
+            self.problems.append(f"step {i}: failed append with {len(orphans)} unfinished temps and {len(markers)} unpaired markers")
+            return
+        if orphans:
+            t = orphans[0]
+            mine = [c for c in calls if c[0] in ("Create", "Write", "Fsync") and c[1] == t]
+            k = len(mine)
+            content = next((c[2] for c in mine if c[0] == "Write"), [("Raw", 1)])
+            failing = (("P", t[1], t[2]), content)
+        else:
+            k = 0
+            d, n = self.namer.fresh("data" if markers else "metadata/inflight")
+            failing = (("P", d, n), [("Raw", 1)])
+        if markers:                                   # the marker was published, the data file's publish failed
+            mk = self.pub(list(markers.values())[0])
+            if failing[0][1] != self.namer.dir("data"):
+                self.problems.append(f"step {i}: unpaired marker but the unfinished temp is not a data file")
+                return
+            self.ops.append({"fail": its, "mk": mk, "fl": failing, "k": k, "step": i})
+        else:                                         # the marker's own publish failed
+            if failing[0][1] != self.namer.dir("metadata/inflight"):
+                self.problems.append(f"step {i}: failed append: unfinished temp {failing[0]} is neither a marker nor follows one")
+                return
+            self.ops.append({"fail": its, "mk": failing, "fl": None, "k": k, "step": i})
+
     def pub(self, p: Dict[str, Any]) -> Tuple[Any, List[Any]]:
         return (p["cpath"], self.tokens_for(p["rel"], p["bytes"]))
 
@@ -196,6 +242,7 @@ class Case:
             return "[" + "; ".join(f"mkItem {pub(it['marker'])} {pub(it['file'])}" for it in l) + "]"
         return "[" + "; ".join(
             f"OAbort {items(c['abort'])}" if "abort" in c else
+            (f"OFail {items(c['fail'])} {pub(c['mk'])} " + ("None" if c["fl"] is None else f"(Some {pub(c['fl'])})") + f" {c['k']}%nat") if "fail" in c else
             f"OCommit (mkCommit {items(c['data'])} {items(c['manifests'])} {items(c['list'])} {pub(c['meta'])} {ostrace.tokens_coq(c['ptr'])})"
             for c in self.ops) + "]"
 
@@ -483,7 +530,7 @@ def random_scenario(rng, maxlen: int) -> List[Any]:
 
 
 # ------------------------------------------------------------------------------------------ correspondence
-def corr_model(ctx, cases: List[Case]) -> None:
+def corr_model(ctx, cases: List[Case], prefix: str = "") -> None:
     exprs: List[str] = []
     for c in cases:
         exprs.append(f"trace_of {c.ops_coq()}")
@@ -495,6 +542,8 @@ def corr_model(ctx, cases: List[Case]) -> None:
         model_trace = [ostrace.call_from_coq(t) for t in got[3 * k]]
         obs = c.calls_nomkdir()
         info = {"steps": c.steps, "tracer": c.mode}
+        if c.fault is not None:
+            info["fault"] = next((f for f in c.faultlog if f.get("injected")), c.fault)
         if c.problems or c.can["unknown"]:
             bad_t.append(dict(info, canonicaliser_problems=c.problems[:4], calls_outside_alphabet=c.can["unknown"][:4]))
         elif model_trace != obs:
@@ -505,10 +554,10 @@ def corr_model(ctx, cases: List[Case]) -> None:
         if disc is not True:
             idx = fb.x if hasattr(fb, "x") else fb
             bad_d.append(dict(info, first_bad_call=idx, call=repr(c.calls[idx]) if isinstance(idx, int) and idx < len(c.calls) else None))
-        ctx.count(1, ("trace", c.mode, json.dumps(c.steps)))
-    ctx.correspondence("trace", len(cases), bad_t)
-    ctx.correspondence("wf", len(cases), bad_w)
-    ctx.correspondence("disciplined", len(cases), bad_d)
+        ctx.count(1, ("trace", c.mode, json.dumps(c.steps), json.dumps(c.fault)))
+    ctx.correspondence(prefix + "trace", len(cases), bad_t)
+    ctx.correspondence(prefix + "wf", len(cases), bad_w)
+    ctx.correspondence(prefix + "disciplined", len(cases), bad_d)
 
 
 def tree_tokens(case: Case, fs: powerloss.PLFS, paths: List[Any], rel_of: Dict[Any, str]) -> List[Any]:
@@ -718,6 +767,12 @@ def run(ctx) -> None:
     t0 = time.time()
     try:
         corr_model(ctx, allc)
+        # fault runs the model covers: the fault hit a publish inside append_data (OFail); commit-time failures leave
+        # orphan manifests whose data files the rollback unlinks -- outside the discipline, judged by the oracle only
+        modelled = [c for c in fault_cases if not c.error and not c.problems and not c.can["unknown"] and any("fail" in o for o in c.ops)]
+        ctx.stats["fault_runs_modelled_as_OFail"] = len(modelled)
+        ctx.stats["fault_runs_outside_model"] = sum(1 for c in fault_cases if not c.error and c.problems)
+        corr_model(ctx, modelled if not quick else modelled[:40], prefix="fault-")
         corr_evaluator(ctx, (cases[:3] + scases[:1]) if quick else allc)
         corr_schedules(ctx, (cases[:6] + scases[:1]) if quick else allc, 2 if quick else 4)
         # tracers agree
